@@ -1,6 +1,9 @@
 ------------------------------ MODULE C06_Trace ------------------------------
 (* Trace validation for C06: one line per read name given to
-   ReadSetReader.read with what was recorded for every variant. *)
+   ReadSetReader.read with what was recorded for every variant.  A scenario
+   may be a HISTORY of several read() calls on one reader object: every call
+   is judged by the same clauses (the property is stateless: what an earlier
+   call was asked for must not matter), so no state is carried along. *)
 EXTENDS AlleleDetect, Json, IOUtils, TLC
 Trace == ndJsonDeserialize(IOEnv.TRACE_FILE)
 VARIABLE l
@@ -15,8 +18,13 @@ JudgeDetect(e) ==
          /\ Check(e, "NoneIfNoOverlap", NoneIfNoOverlap(e, v))
          /\ Check(e, "AlwaysFoundRef", AlwaysFoundRef(e, v))
          /\ Check(e, "AlwaysFoundNoRef", AlwaysFoundNoRef(e, v))
+(* what one call recorded for one read name: alleles only at positions of variants that THIS call asked for
+   (req = positions of the requested variants, rec = positions at which the read has an allele) *)
+JudgeRecorded(e) ==
+    Check(e, "OnlyRequested", \A k \in DOMAIN e.rec : \E j \in DOMAIN e.req : e.req[j] = e.rec[k])
 Judge(e) ==
     CASE e.ev = "Detect"  -> JudgeDetect(e)
+      [] e.ev = "Recorded" -> JudgeRecorded(e)
       [] e.ev = "Crashed" -> Fail(e, "Returns")
       [] OTHER            -> Fail(e, "UnknownEvent")
 Init == l = 1
